@@ -591,6 +591,12 @@ func runC03(a *Args) error {
 			}
 		}
 		var sel, otherStores []string
+		bgListed := ""
+		if rng.Chance(3, 5) { // a listed store of the required type holding foreign certificates only
+			st := get(req, Pick(rng, names))
+			st.Certs = append(st.Certs, Pick(rng, noise))
+			bgListed = req + ":" + st.Name
+		}
 		listed := func(k string) bool {
 			for _, x := range sel {
 				if x == k {
@@ -617,6 +623,9 @@ func runC03(a *Args) error {
 				insert(Pick(rng, c03Types) + ":" + Pick(rng, names))
 			}
 		}
+		if bgListed != "" {
+			ensure(bgListed)
+		}
 		chainCert := func() int64 {
 			if rng.Chance(1, 2) {
 				return e.ids[len(e.ids)-1]
@@ -626,8 +635,8 @@ func runC03(a *Args) error {
 		needOther := false
 		for np := Pick(rng, []int{0, 1, 1, 1, 1, 2}); np > 0; np-- {
 			cert := chainCert()
-			switch rng.Intn(6) {
-			case 0, 1:
+			switch rng.Intn(7) {
+			case 0, 1, 6:
 				s := get(req, Pick(rng, names))
 				s.Certs = append(s.Certs, cert)
 				ensure(req + ":" + s.Name)
@@ -781,7 +790,7 @@ func runC03(a *Args) error {
 		}
 		return c
 	}
-	nRandom := 1500
+	nRandom := 2500
 	if a.Tier == "thorough" {
 		nRandom = 40000
 	}
@@ -790,7 +799,7 @@ func runC03(a *Args) error {
 	}
 
 	// ---------- family 3: the real directory trust store ----------
-	nReal := 300
+	nReal := 400
 	if a.Tier == "thorough" {
 		nReal = 5000
 	}
@@ -822,7 +831,7 @@ func runC03(a *Args) error {
 
 	// ---------- family 4: lists no validated statement can carry (correspondence only) ----------
 	bad := []string{"ca", "", "ca:", ":a", "CA:a", "ca:a:b", "x:y", "tsa", "ca :a", " ca:a", "signingauthority:a", "tsa:", ":", "signingAuthority", "ca;a"}
-	nBad := 150
+	nBad := 200
 	if a.Tier == "thorough" {
 		nBad = 3000
 	}
